@@ -45,6 +45,8 @@ def main(run: Run):
     for _f, _st in run.extra["lean_lemmas"]["files"].items():
         if _st != "accepted":
             run.assumptions.append(f"Lean lemma file {_f} is '{_st}': the SMT axioms it backs are TRUSTED in this run")
+    from . import ctor_l1 as _ctor_l1
+    _ctor_l1.add_to(run, ['wb_arbiter_init'])
     return run.finish(
         explanation="Arbiter.elaborate contract with an observational owner predicate and the inductive invariant "
                     "'exactly one owner': exact next-owner function on every released cycle (closest requester after the owner, cyclically), "
